@@ -93,7 +93,11 @@ fn main() {
                         Some(p) => format!("ok {}", hex(p)),
                         None => "none".to_string(),
                     },
-                    Err(e) => format!("err {}", err_class(&*e)),
+                    Err(e) => {
+                        let msg = e.to_string();
+                        let why = if msg.contains("Color channel mismatch") { "channel-mismatch" } else { "other" };
+                        format!("err {} {}", err_class(&*e), why)
+                    }
                 }
             }) {
                 Ok(s) => s,
